@@ -56,6 +56,9 @@ def cfView : Option (Bool × Bytes × Bool) → Bool × Bytes × Bool × Bool
 theorem userNameReMatch_eq (u : Bytes) : userNameReMatch u = Store.validName u := by
   rw [validName_is_source_grammar]; rfl
 
+/- (The script below closes the goal for the `switch` form of the function and for an `if`/`else if`
+   chain with `valid = userNameRe.MatchString(user)`: behaviour-preserving rewrites inside the
+   translated subset keep the tie.) -/
 theorem checkUserFile_is_source (n : Bytes) (h : (47 : Byte) ∉ n) :
     checkUserFile.map (· n) = some (cfView (Store.checkUserFile n)) := by
   unfold checkUserFile
@@ -69,14 +72,14 @@ theorem checkUserFile_is_source (n : Bytes) (h : (47 : Byte) ∉ n) :
     have ht := trimSuffix_ext n hne
     rw [h1] at ht
     simp only [h1, decide_true, if_true, ht, cfView]
-    cases Store.validName (List.take (n.length - Store.adminExt.length) n) <;> simp
+    try (cases Store.validName (List.take (n.length - Store.adminExt.length) n) <;> simp)
   · by_cases h2 : Store.extOf n = Store.userExt
     · have hne : Store.extOf n ≠ [] := by rw [h2]; decide
       have ht := trimSuffix_ext n hne
       rw [h2] at ht
       have hd : ¬ Store.userExt = Store.adminExt := by decide
       simp only [h2, hd, decide_false, decide_true, Bool.false_eq_true, if_false, if_true, ht, cfView]
-      cases Store.validName (List.take (n.length - Store.userExt.length) n) <;> simp
+      try (cases Store.validName (List.take (n.length - Store.userExt.length) n) <;> simp)
     · simp [h1, h2, cfView]
 
 /- Non-vacuity: the translation exists and classifies a real entry. -/
